@@ -135,6 +135,7 @@ func countOp(ops []Op, op string) int {
 func init() { checks["C10"] = checkC10 }
 
 func checkC10(c *Ctx) (int, error) {
+	c.mech = true
 	c.ev.Level = "model_checking"
 	c.ev.Assumptions = []string{"Write/Flush histories exhaustive up to the stated length over abstract size classes; payload bytes and the concrete size inside a class are seeded samples",
 		"'any conforming inflater' is represented by the RFC 1951 reference inflater of the harness and compress/flate (gzip/zlib: the standard library's container readers)"}
@@ -380,6 +381,7 @@ var accelSettings = []WSetting{
 func init() { checks["C09"] = checkC09 }
 
 func checkC09(c *Ctx) (int, error) {
+	c.mech = true
 	c.ev.Level = "model_checking"
 	c.ev.Assumptions = []string{"pairs of partitions exhaustive over unit boundaries (TLC, PartitionGen); the byte offset of each boundary and the data are seeded samples placed at and around buffer, window and 64 KiB thresholds"}
 	u, mf, mc := 5, 2, 3
@@ -443,6 +445,7 @@ func checkC09(c *Ctx) (int, error) {
 func init() { checks["C12"] = checkC12 }
 
 func checkC12(c *Ctx) (int, error) {
+	c.mech = true
 	c.ev.Level = "model_checking"
 	c.ev.Assumptions = []string{"histories h1;Reset;h2 exhaustive up to the stated length (TLC, WriterModel); a destination failure inside h1 is placed at call 1..3; payload bytes are seeded samples (h2 uses different data from h1)"}
 	if err := c.writerModels(); err != nil {
